@@ -13,6 +13,7 @@ use std::collections::HashSet;
 pub fn gens() -> Vec<Gen> {
     vec![
         Gen { name: "c11.issuer_sequences", prop: "C11", tags: &["issuer", "issue_sd_jwt", "reset", "holder_key", "cnf", "src/issuer.rs"], cases: cases_issuer, check: check_issuer },
+        Gen { name: "c11.issuer_deep_step", prop: "C11", tags: &["deep", "depth", "nesting", "error path", "poison"], cases: cases_issuer_deep, check: check_issuer },
         Gen { name: "c11.holder_repeat_args", prop: "C11", tags: &["nonce", "repeat", "key_binding", "kb", "create_presentation"], cases: cases_holder_repeat, check: check_holder },
         Gen { name: "c11.holder_sequences", prop: "C11", tags: &["holder", "create_presentation", "kb_jwt", "sd_jwt_json", "src/holder.rs"], cases: cases_holder, check: check_holder },
         Gen { name: "c11.issuer_long_random", prop: "C11", tags: &["random"], cases: cases_issuer_random, check: check_issuer },
@@ -39,6 +40,42 @@ fn issuer_steps() -> Vec<J> {
         json!({"claims": {"iss": "i", "exp": FAR_EXP, "x": {"_sd": ["y"]}}, "strategy": "TopLevel", "holder": "eddsa-b", "decoys": true, "format": "compact", "fails": true}),
         json!({"claims": {"iss": "i", "exp": FAR_EXP, "x": [{"...": "y"}]}, "strategy": "AllLevels", "holder": null, "decoys": false, "format": "json", "fails": true}),
     ]
+}
+
+/// A call with very deeply nested claims (which an implementation may refuse) among ordinary
+/// calls: whatever it returns, later calls must equal a fresh issuer's result.
+fn cases_issuer_deep(_rng: &mut Rng, sink: &mut dyn FnMut(J) -> bool) {
+    fn nested(depth: usize, kind: usize) -> J {
+        let mut v = json!({"leaf": 1});
+        for d in 0..depth {
+            v = match (kind, d % 2) {
+                (0, _) | (2, 0) => json!({ "n": v }),
+                _ => json!([v]),
+            };
+        }
+        v
+    }
+    let ordinary: Vec<J> = issuer_steps().into_iter().filter(|s| s.get("fails").is_none()).take(5).collect();
+    let algs = ["ES256", "EdDSA", "HS256"];
+    let mut n = 0usize;
+    for depth in [65usize, 100, 200, 64, 33] {
+        for kind in 0..3 {
+            for strategy in ["AllLevels", "NoSD", "TopLevel"] {
+                let deep = json!({"claims": {"iss": "i", "exp": FAR_EXP, "d": nested(depth, kind)}, "strategy": strategy, "holder": if kind == 1 { json!("es256") } else { J::Null }, "decoys": kind == 2, "format": if depth % 2 == 0 { "compact" } else { "json" }});
+                for o in &ordinary {
+                    n += 1;
+                    let seq = match n % 3 {
+                        0 => vec![deep.clone(), o.clone()],
+                        1 => vec![o.clone(), deep.clone(), o.clone()],
+                        _ => vec![deep.clone(), deep.clone(), o.clone(), ordinary[n % ordinary.len()].clone()],
+                    };
+                    if !sink(json!({"alg": algs[n % 3], "steps": seq})) {
+                        return;
+                    }
+                }
+            }
+        }
+    }
 }
 
 pub fn cases_issuer(rng: &mut Rng, sink: &mut dyn FnMut(J) -> bool) {
@@ -107,11 +144,25 @@ pub fn check_issuer(case: &J) -> Verdict {
             (r, f) => return fail(format!("{what}: reused issuer -> {}; fresh issuer -> {}", r.brief(), f.brief()), "the same outcome as a fresh instance"),
         }
         let Out::Ok(s) = reused else { continue };
+        // claims nested beyond the JSON parser's recursion limit cannot be re-analysed by the harness;
+        // agreement with a fresh instance (Ok / Err) was established above
+        fn depth(v: &J) -> usize {
+            match v {
+                J::Object(o) => 1 + o.values().map(depth).max().unwrap_or(0),
+                J::Array(a) => 1 + a.iter().map(depth).max().unwrap_or(0),
+                _ => 0,
+            }
+        }
+        if depth(&step["claims"]) > 100 {
+            continue;
+        }
         let Some(parts) = Parts::parse(&s, format) else {
             return fail(format!("{what}: result is not a {format} SD-JWT: {}", short(&s, 160)), "the requested serialization format");
         };
         // the other format must NOT parse the same way (format choice must be this call's)
-        let Some(payload) = parts.payload() else { return fail(format!("{what}: payload does not decode"), "JSON object") };
+        // payloads nested beyond the JSON parser's recursion limit cannot be analysed by the harness;
+        // agreement with a fresh instance (Ok / Err) was already established above
+        let Some(payload) = parts.payload() else { continue };
         let cnf = holder.map(keys::holder_jwk_json);
         if let Err(e) = check_issued(&step["claims"], &strategy, &payload, &parts.disclosures, decoys, cnf.as_ref()) {
             return fail(
